@@ -1,0 +1,7 @@
+//go:build !verif
+
+package dvid
+
+// VerifPoint marks a site of interest for the external verification harness.
+// It does nothing unless built with the "verif" build tag.
+func VerifPoint(site string) {}
